@@ -13,6 +13,12 @@ CV.Ca — executable model of the Connect CA leaf-signing path and of the CA tab
   agent/consul/state/connect_ca.go  CA roots / config / provider-state / serial tables
   agent/consul/fsm/commands_ce.go   ApplyConnectCAOperationFromRequest
 
+Round 5 additions: `canSign` (uri_signing.go CanSign), the later checks of SignCertificate in their
+order (rate limiter, root expiry, provider row / key / signing certificate, serial taken before
+x509.CreateCertificate), `restoreCa` (FSM snapshot + restore of the CA tables), `rotationRoots` (the
+root list primaryUpdateRootCA / persistNewRootAndConfig build), `pruneRoots` (leader_connect.go
+pruneCARoots; modelled only, not tied).
+
 The code modelled is /repo at or after the fix commits 7598e15 (agents: datacenter check), d4218d0
 (`isSameAgentURI`: the trust-domain fix-up also replaces agent URIs that are not in canonical form),
 68fde22 (active roots counted per root id, last one wins), 9d8398d / bb7cbe1 (honest roots CAS,
@@ -300,6 +306,7 @@ deriving DecidableEq, Repr
 inductive Err
   | uriCount | email | parse (e : PErr) | entOnly | kind | acl | dc | trustDomain
   | noConfig | noActiveRoot | providerUninit
+  | rateLimited | rootExpired | noSigningCert | keyMismatch
 deriving DecidableEq, Repr
 
 structure Cert where
@@ -352,6 +359,16 @@ def signUris (cfg : Cfg) (u : Url) : Id → Except Err (List Url)
     else .ok [u]
   | .signing .. => .error .kind
   | id => if lc (hostOf id) = cfg.trustDomain then .ok [u] else .error .trustDomain
+
+def bConsul : Bytes := [99, 111, 110, 115, 117, 108]
+
+/-- `SpiffeIDSigningForCluster(cluster).CanSign(id)`: a signing id only when both render to the same
+    URI string; service / mesh gateway / server when the lower-cased host is the signing id's
+    host; everything else (agents) never. -/
+def canSign (cluster : Bytes) : Id → Bool
+  | .signing c d => (uriOf (.signing cluster bConsul)).str = (uriOf (.signing c d)).str
+  | .agent .. => false
+  | id => lc (hostOf id) = hostOf (.signing cluster bConsul)
 
 /-- `CAManager.AuthorizeAndSignCertificate` + `SignCertificate` + `ConsulProvider.Sign`,
     with the serial number Raft hands out as a parameter. -/
@@ -522,6 +539,24 @@ def caStep (s : CaState) (idx : Nat) : CaCmd → CaState × CaRes
   | .incSerial => ({ s with serial := some (nextSerial s) }, .num (nextSerial s))
   | .invalid => (s, .err .invalidOp)
 
+/-- FSM snapshot + restore of the CA tables: roots, provider rows and every index-table entry
+    (roots index, provider index, serial counter) are persisted and restored as they are; a
+    configuration row with an empty provider name is not restored (`Restore.CAConfig`). -/
+def restoreCa (s : CaState) : CaState :=
+  { s with config := s.config.filter (fun c => c.provider ≠ []) }
+
+/-- The root list the leader sends when it installs a new active root (`primaryUpdateRootCA`,
+    `persistNewRootAndConfig`): a copy of every stored root with the active flag cleared, then the
+    new root, active.  Without a new root (`none`: config-only persist) the stored roots as they are. -/
+def rotationRoots (old : List Root) : Option Bytes → List ReqRoot
+  | some n => old.map (fun r => ⟨r.id, false⟩) ++ [⟨n, true⟩]
+  | none => old.map (fun r => ⟨r.id, r.active⟩)
+
+/-- The root list `pruneCARoots` sends: every stored root except the inactive ones whose
+    rotated-out stamp is older than twice the leaf TTL (`expired`). -/
+def pruneRoots (old : List Root) (expired : Bytes → Bool) : List ReqRoot :=
+  (old.filter (fun r => !(!r.active && expired r.id))).map (fun r => ⟨r.id, r.active⟩)
+
 /-! ### the system: CA tables + the leader's signing path -/
 
 structure Sys where
@@ -530,6 +565,22 @@ structure Sys where
   /-- id of the provider-state row the leader's Consul CA provider reads its key from
       (`none`: no provider yet) -/
   mgrProv : Option Bytes := none
+  /-- `CSRMaxPerSecond` of the stored CA config: `none` when 0 (no rate limit), otherwise a key
+      naming the value (only values so small that no token is ever added back are modelled) -/
+  rate : Option Nat := none
+  /-- the leader's CSR rate limiter, created lazily by the first request that reaches it and
+      re-created (`rate.NewLimiter(limit, 1)`, one token) only when the configured value differs
+      from the one it was created with: (value key, tokens left) -/
+  limiter : Option (Nat × Nat) := none
+  /-- the leader's clock is past the signing root's `NotAfter` -/
+  rootExpired : Bool := false
+  /-- the provider-state row holds a private key / a certificate to sign leaves with (the root in
+      the primary, the intermediate the primary signed in a secondary datacenter) -/
+  provKey : Bool := true
+  provCert : Bool := true
+  /-- the private key of the row is the key of that certificate (a secondary whose request for a
+      new intermediate the primary did not answer holds a new key next to the old certificate) -/
+  provMatch : Bool := true
 deriving DecidableEq, Repr
 
 /-- `ConsulProvider.getState`: the provider-state row must exist -/
@@ -542,6 +593,21 @@ def trustDomainOf (cluster : Bytes) : Bytes := lc (cluster ++ bDotConsul)
 
 def activeRoots (s : CaState) : List Root := s.roots.filter (·.active)
 
+/-- `getCSRRateLimiterWithLimit`: tokens the request finds (`none`: no rate limit configured) -/
+def limiterTokens (s : Sys) : Option Nat :=
+  match s.rate with
+  | none => none
+  | some k =>
+    match s.limiter with
+    | some (k', t) => if k' = k then some t else some 1
+    | none => some 1
+
+/-- the limiter after a request took a token from it -/
+def limiterAfter (s : Sys) : Option (Nat × Nat) :=
+  match s.rate with
+  | some k => some (k, (limiterTokens s).getD 1 - 1)
+  | none => s.limiter
+
 /-- one `ConnectCA.Sign`: configuration and signing root come from the CA tables, the serial number
     from `CAOpIncrementProviderSerialNumber`, which is applied only when every check passed. -/
 def signStep (s : Sys) (az : Authz) (csr : Csr) : Sys × Except Err Cert :=
@@ -553,16 +619,33 @@ def signStep (s : Sys) (az : Authz) (csr : Csr) : Sys × Except Err Cert :=
       match authorizeAndSign ⟨s.dc, trustDomainOf c.cluster, r.id⟩ az csr (nextSerial s.ca) with
       | .error e => (s, .error e)
       | .ok cert =>
-        if providerReady s then
-          ({ s with ca := { s.ca with serial := some (nextSerial s.ca) } }, .ok cert)
-        else (s, .error .providerUninit)
+        -- the rate limiter is consulted after every check on the request and before anything else
+        if limiterTokens s = some 0 then ({ s with limiter := s.rate.map (·, 0) }, .error .rateLimited) else
+        let s1 := { s with limiter := limiterAfter s }
+        if s.rootExpired then (s1, .error .rootExpired) else
+        if providerReady s && s.provKey then
+          if s.provCert then
+            -- the serial number is taken before x509.CreateCertificate compares the keys
+            if s.provMatch then
+              ({ s1 with ca := { s.ca with serial := some (nextSerial s.ca) } }, .ok cert)
+            else ({ s1 with ca := { s.ca with serial := some (nextSerial s.ca) } }, .error .keyMismatch)
+          else (s1, .error .noSigningCert)
+        else (s1, .error .providerUninit)
     | _ => (s, .error .noActiveRoot)
 
 inductive SysOp
   | ca (idx : Nat) (c : CaCmd)
   | sign (az : Authz) (csr : Csr)
   /-- the leader installs a provider instance (Initialize / UpdateConfiguration) -/
-  | mgr (p : Option Bytes)
+  | mgr (p : Option Bytes) (key cert mtch : Bool)
+  /-- FSM snapshot + restore (same lineage) -/
+  | restore
+  /-- the stored config's `CSRMaxPerSecond` changes -/
+  | rate (k : Option Nat)
+  /-- a new leader (a new CAManager, hence no limiter yet and the real clock) -/
+  | leader
+  /-- the leader's clock moves past / before the root's expiry -/
+  | clock (expired : Bool)
 
 /-- serial numbers handed out by one operation -/
 def sysStep (s : Sys) : SysOp → Sys × List Nat
@@ -573,8 +656,13 @@ def sysStep (s : Sys) : SysOp → Sys × List Nat
   | .sign az csr =>
     match signStep s az csr with
     | (s', .ok cert) => (s', [cert.serial])
-    | (s', .error _) => (s', [])
-  | .mgr p => ({ s with mgrProv := p }, [])
+    -- a serial number taken for a certificate that could then not be created is gone as well
+    | (s', .error _) => if s'.ca.serial = s.ca.serial then (s', []) else (s', [nextSerial s.ca])
+  | .mgr p k c m => ({ s with mgrProv := p, provKey := k, provCert := c, provMatch := m }, [])
+  | .restore => ({ s with ca := restoreCa s.ca }, [])
+  | .rate k => ({ s with rate := k }, [])
+  | .leader => ({ s with limiter := none, rootExpired := false }, [])
+  | .clock e => ({ s with rootExpired := e }, [])
 
 /-- all serial numbers handed out along a run, in order -/
 def runSerials (s : Sys) : List SysOp → Sys × List Nat
